@@ -3097,7 +3097,11 @@ def update_working_tree(
                             f"Please commit your changes or stash them before you switch branches."
                         )
 
-    # Apply the changes
+    # Apply the changes, removals first: a path may take the place of a
+    # directory whose contents go away in the same update (d/g -> d).
+    changes = [c for c in changes if c.type == CHANGE_DELETE] + [
+        c for c in changes if c.type != CHANGE_DELETE
+    ]
     for change in changes:
         if change.type in (CHANGE_DELETE, CHANGE_RENAME):
             # Remove file/directory
